@@ -40,6 +40,7 @@ UNSUPPORTED = []     # statement kinds met by any interpreter of this process th
 # a call of anything else makes the run it occurs in "not decided" where it fails (E.8).
 KNOWN_EXTERNALS = {
     "builtins.all", "builtins.any", "builtins.abs", "builtins.bool", "builtins.dict",
+    "builtins.dict.fromkeys",
     "builtins.enumerate", "builtins.eval", "builtins.float", "builtins.format", "builtins.frozenset",
     "builtins.getattr", "builtins.hasattr", "builtins.int", "builtins.isinstance", "builtins.iter",
     "builtins.len", "builtins.list", "builtins.max", "builtins.min", "builtins.print",
@@ -516,6 +517,25 @@ class Interp:
         if it[0] == "call" and it[1] == "builtins.enumerate" and it[2] \
                 and unwrap(it[2][0]) is not it[2][0]:
             it = ("call", it[1], (unwrap(it[2][0]),) + tuple(it[2][1:])) + tuple(it[3:])
+        if it[0] == "call" and it[1] == "builtins.zip" and len(it[2]) == 2 and not it[3]:
+            # zip(A, [f(x) for x in A]): one pass over A, each element paired with its f(x)
+            za, zb = it[2]
+            if zb[0] == "comp" and zb[1] in ("list", "gen") and len(zb[3]) == 1 \
+                    and not zb[3][0][2] and len(zb[2]) == 1:
+                glid, git, _ = zb[3][0]
+                a2, va = Interp._mapping_view(za)
+                if va is None and a2 == git:
+                    gel = ("elem", git, glid)
+
+                    def paired(e_, elt=zb[2][0], gel=gel):
+                        def sub(t):
+                            if t == gel:
+                                return e_
+                            if isinstance(t, tuple):
+                                return tuple(sub(x) for x in t)
+                            return t
+                        return ("tuple", (e_, sub(elt)))
+                    return a2, paired
         if it[0] == "mcall" and it[2] in ("items", "keys", "values") and not it[3] and not it[4]:
             base, view = it[1], it[2]
             if view == "items":
@@ -1362,6 +1382,15 @@ class Interp:
     def _e_BinOp(self, e, st, act):
         a = self._eval(e.left, st, act)
         b = self._eval(e.right, st, act)
+        if isinstance(e.op, ast.BitOr) and a[0] == "dictobj" and b[0] == "dictobj" \
+                and not self.heap[a[1]]["dyn"] and not self.heap[b[1]]["dyn"]:
+            # d1 | d2 of two literal dicts: d1's entries (in d1's order) overridden / extended by d2
+            items = dict(self.heap[a[1]]["items"])
+            items.update(self.heap[b[1]]["items"])
+            oid = self.new_id()
+            self.heap[oid] = {"kind": "dict", "items": items, "dyn": [], "pc0": st.pc,
+                              "site": f"{act.fi.module.path}:{e.lineno}"}
+            return ("dictobj", oid)
         return self._fold_bin(BIN_OPS.get(type(e.op), "?"), a, b)
 
     def _e_Compare(self, e, st, act):
@@ -1931,6 +1960,40 @@ class Interp:
                                                                        "os"):
             site = (f"{act.fi.module.path}:{e.lineno}", self.new_id())
         # builtin containers get heap objects so later mutation is tracked
+        if fname == "builtins.dict.fromkeys" and 1 <= len(args) <= 2 and not kwargs:
+            # dict.fromkeys(X, v) is `d = {}; for k in X: d[k] = v`
+            lits = self._literal_elements(args[0])
+            if lits is not None and len(lits) <= 32 and all(is_const(x) for x in lits):
+                # over a literal sequence of keys: the literal dict
+                try:
+                    items = {x[1]: (args[1] if len(args) == 2 else CONST_NONE) for x in lits}
+                except TypeError:
+                    items = None
+                if items is not None:
+                    oid = self.new_id()
+                    self.heap[oid] = {"kind": "dict", "items": items, "dyn": [], "pc0": st.pc,
+                                      "site": f"{act.fi.module.path}:{e.lineno}"}
+                    return ("dictobj", oid)
+            it, view = self._mapping_view(args[0])
+            ks = self._keys_source(it) if view is None else None
+            if ks is not None:
+                it = ks           # the keys of a dict filled once per element of IT are IT
+            if it[0] == "comp" and it[1] == "dict" and len(it[3]) == 1 and not it[3][0][2] \
+                    and it[2][0] == ("elem", it[3][0][1], it[3][0][0]):
+                it = it[3][0][1]  # {x: f(x) for x in IT} has IT's elements as keys
+            if view is None:
+                lid = self.new_id()
+                self.loops[lid] = {"iter": it, "func": act.fi.fq, "lineno": e.lineno,
+                                   "kind": "for", "target": "_key", "pc": st.pc}
+                key = ("elem", it, lid)
+                val = args[1] if len(args) == 2 else CONST_NONE
+                oid = self.new_id()
+                inner = st.fork(("inloop", lid))
+                self.heap[oid] = {"kind": "dict", "items": {}, "dyn": [(key, val, inner.pc)],
+                                  "pc0": st.pc, "site": f"{act.fi.module.path}:{e.lineno}"}
+                self._emit("store", inner, e, act, target="sub", base=("dictobj", oid), idx=key,
+                           value=val, aug=None)
+                return ("dictobj", oid)
         if fname == "builtins.dict":
             oid = self.new_id()
             h = {"kind": "dict", "items": dict(kwargs), "dyn": [], "pc0": st.pc,
